@@ -1,8 +1,563 @@
-//! C10 – hostile peer (stub; filled in below).
-use crate::run::*;
-use crate::zoo::ZooMsg;
+//! C10 – the receiver against a hostile peer, plus the systematic (enumerated) layers of
+//! C07/C08 (two-chunk splits), C09 (single fault at every pipe-call index) and C10 (truncation
+//! at every position).
 
-pub fn run_c10<M: ZooMsg + ?Sized>(sc: &Scenario, keep_log: bool) -> RunOutput { run_delivery::<M>(sc, keep_log) }
-pub fn systematic_c09(_b: &str, _s: u64, _t: &str) -> Vec<Scenario> { vec![] }
-pub fn systematic_c10(_b: &str, _s: u64, _t: &str) -> Vec<Scenario> { vec![] }
-pub fn systematic_splits(_p: &str, _b: &str, _s: u64, _t: &str) -> Vec<Scenario> { vec![] }
+use crate::backend::guarded;
+use crate::c06::{run_receiver_only, wire_of};
+use crate::party::*;
+use crate::run::*;
+use crate::tape::{mix, Decider, St};
+use crate::val::Val;
+use crate::world::*;
+use crate::zoo::{ZooMsg, N_TYPES, TYPE_NAMES};
+use flatty::error::ErrorKind;
+use flatty::AlignedBytes;
+use std::sync::Arc;
+
+fn viol(oracle: &str, kind: &str, site: &str, detail: String) -> Option<Violation> {
+    Some(Violation { property: "C10".into(), oracle: oracle.into(), kind: kind.into(), site: site.into(), detail })
+}
+
+/// Flip the first constrained leaf of a value: a Bool, or the first ASCII char of a string.
+/// Returns the changed value and what kind of leaf it was.
+fn flip_leaf(v: &Val) -> Option<(Val, u8)> {
+    match v {
+        Val::B(b) => Some((Val::B(!*b), 0)),
+        Val::S(s) => {
+            let c = s.chars().next()?;
+            if !c.is_ascii() || c == '\0' {
+                return None;
+            }
+            let nc = if c == 'a' { 'b' } else { 'a' };
+            let mut t = String::new();
+            t.push(nc);
+            t.push_str(&s[1..]);
+            Some((Val::S(t), 1))
+        }
+        Val::L(items) | Val::R(items) => {
+            for (i, x) in items.iter().enumerate() {
+                if let Some((nx, k)) = flip_leaf(x) {
+                    let mut c = items.clone();
+                    c[i] = nx;
+                    return Some((if matches!(v, Val::L(_)) { Val::L(c) } else { Val::R(c) }, k));
+                }
+            }
+            None
+        }
+        Val::V(t, items) => {
+            for (i, x) in items.iter().enumerate() {
+                if let Some((nx, k)) = flip_leaf(x) {
+                    let mut c = items.clone();
+                    c[i] = nx;
+                    return Some((Val::V(*t, c), k));
+                }
+            }
+            None
+        }
+        _ => None,
+    }
+}
+
+/// Differentially confirmed aim: emplace the value and its one-leaf variant; if exactly one byte
+/// of the frame differs (0/1 for a Bool, the two ASCII chars for a string) that byte *is* the
+/// leaf.  Returns (offset in frame, a byte value the documentation declares invalid there).
+fn confirmed_aim<M: ZooMsg + ?Sized>(val: &Val, frame: &[u8], cap: usize) -> Option<(usize, u8)> {
+    let (v2, kind) = flip_leaf(val)?;
+    let mut buf = AlignedBytes::new(cap, M::ALIGN);
+    buf.fill(0);
+    let size = guarded(|| M::emplace_val(&mut buf, &v2).map(|m| m.size())).ok()?.ok()?;
+    if size != frame.len() {
+        return None;
+    }
+    let mut buf1 = AlignedBytes::new(cap, M::ALIGN);
+    buf1.fill(0);
+    let size1 = guarded(|| M::emplace_val(&mut buf1, val).map(|m| m.size())).ok()?.ok()?;
+    if size1 != size {
+        return None;
+    }
+    let diffs: Vec<usize> = (0..size).filter(|&i| buf[i] != buf1[i]).collect();
+    if diffs.len() != 1 {
+        return None;
+    }
+    let at = diffs[0];
+    if frame[at] != buf1[at] {
+        return None;
+    }
+    let ok = match kind {
+        0 => (buf[at] == 0 && buf1[at] == 1) || (buf[at] == 1 && buf1[at] == 0),
+        _ => buf[at].is_ascii() && buf1[at].is_ascii(),
+    };
+    if !ok {
+        return None;
+    }
+    Some((at, if kind == 0 { 2 } else { 0xFF }))
+}
+
+#[derive(Debug)]
+struct Hostile {
+    stream: Vec<u8>,
+    /// frames wholly before this offset are untouched
+    first_edit: usize,
+    /// framed corruption: (start, end) of the complete-but-malformed frame
+    corrupted: Option<(usize, usize)>,
+    kind: &'static str,
+}
+
+pub fn run_c10<M: ZooMsg + ?Sized>(sc: &Scenario, keep_log: bool) -> RunOutput {
+    let mut dec = sc.decider();
+    let mut stats: Stats = [0; P::_COUNT as usize];
+    let nspec = if sc.aux.systematic { NSpec::Exactly(3) } else { NSpec::UpTo(4) };
+    let mut plan = make_plan::<M>(&mut dec, &mut stats, nspec, 1);
+    plan.retain_p = 0;
+    let plan = Arc::new(plan);
+    let wire = match guarded(|| wire_of::<M>(&plan)) {
+        Ok(Ok(w)) => w,
+        Ok(Err(e)) => {
+            return RunOutput { violation: None, harness_error: Some(e), tape: dec.rec.clone(), full_hash: 0, shape_hash: 0, stats, ticks: 0, state_hashes: vec![], nontrivial: false, summary: None, calls: (0, 0, 0), stream_len: 0 }
+        }
+        Err(c) => {
+            return RunOutput {
+                violation: viol("setup", "panic", &c.site(), format!("building / sending the valid messages panicked: {}", c.describe())),
+                harness_error: None,
+                tape: dec.rec.clone(),
+                full_hash: 0,
+                shape_hash: 0,
+                stats,
+                ticks: 0,
+                state_hashes: vec![],
+                nontrivial: false,
+                summary: None,
+                calls: (0, 0, 0),
+                stream_len: 0,
+            }
+        }
+    };
+    let mut valid: Vec<u8> = Vec::new();
+    let mut bounds: Vec<(usize, usize)> = Vec::new();
+    for f in &wire.frames {
+        bounds.push((valid.len(), valid.len() + f.len()));
+        valid.extend_from_slice(f);
+    }
+    let cap = 2 * plan.max_send.max(M::MIN_SIZE);
+    let h = build_hostile::<M>(sc, &mut dec, &mut stats, &plan, &wire, &valid, &bounds, cap);
+    let pads: Vec<usize> = bounds.iter().enumerate().map(|(i, b)| b.0 + plan.msgs[i].pad_start).collect();
+    let stream = h.stream.clone();
+    let mut w = run_receiver_only::<M>(sc, dec, stats, plan.clone(), stream.clone(), bounds.clone(), pads, "C10", keep_log);
+    if w.violation.is_none() && w.harness_error.is_none() {
+        w.violation = check_hostile::<M>(&w, &h, &wire, &bounds);
+    }
+    let nontrivial = w.pipe.delivered_total > 0;
+    let mut out = output_of(w, &plan, nontrivial, keep_log);
+    if let Some(serde_json::Value::Object(m)) = &mut out.summary {
+        m.insert("hostile_kind".into(), h.kind.into());
+        m.insert("hostile_stream".into(), format!("{:02x?}", &h.stream[..h.stream.len().min(96)]).into());
+        m.insert("first_edit".into(), h.first_edit.into());
+        m.insert("corrupted_frame".into(), format!("{:?}", h.corrupted).into());
+    }
+    out
+}
+
+#[allow(clippy::too_many_arguments)]
+fn build_hostile<M: ZooMsg + ?Sized>(sc: &Scenario, dec: &mut Decider, stats: &mut Stats, plan: &Plan, wire: &crate::c06::Wire, valid: &[u8], bounds: &[(usize, usize)], cap: usize) -> Hostile {
+    if let Some(t) = sc.aux.truncate {
+        let t = t.min(valid.len());
+        stats[P::data_truncate as usize] += 1;
+        return Hostile { stream: valid[..t].to_vec(), first_edit: t, corrupted: None, kind: "truncated-valid" };
+    }
+    let kind = dec.weighted(St::Bytes, &[2, 3, 3, 3, 3, 2]);
+    match kind {
+        0 => {
+            // pure garbage, sometimes longer than the receive buffer
+            let len = dec.below(St::Bytes, (3 * plan.max_recv as u32).max(8)) as usize;
+            let style = dec.below(St::Bytes, 3);
+            let s: Vec<u8> = (0..len)
+                .map(|_| match style {
+                    0 => dec.below(St::Bytes, 256) as u8,
+                    1 => [0u8, 1, 2, 0xFF, 0x7F, 0x80, 4, 8][dec.below(St::Bytes, 8) as usize],
+                    _ => (dec.below(St::Bytes, 4)) as u8,
+                })
+                .collect();
+            stats[P::data_garbage as usize] += 1;
+            Hostile { stream: s, first_edit: 0, corrupted: None, kind: "garbage" }
+        }
+        1 if !valid.is_empty() => {
+            // valid stream with 1-4 byte edits anywhere
+            let mut s = valid.to_vec();
+            let n = 1 + dec.below(St::Bytes, 4) as usize;
+            let mut first = s.len();
+            for _ in 0..n {
+                let at = dec.below(St::Bytes, s.len() as u32) as usize;
+                let old = s[at];
+                s[at] = match dec.below(St::Bytes, 6) {
+                    0 => old ^ (1 << dec.below(St::Bytes, 8)),
+                    1 => 0,
+                    2 => 0xFF,
+                    3 => old.wrapping_add(1),
+                    4 => old.wrapping_sub(1),
+                    _ => dec.below(St::Bytes, 256) as u8,
+                };
+                if s[at] != old {
+                    first = first.min(at);
+                    stats[if old ^ s[at] == (old ^ s[at]) & (old ^ s[at]).wrapping_neg() { P::data_bitflip as usize } else { P::data_overwrite as usize }] += 1;
+                }
+            }
+            Hostile { stream: s, first_edit: first, corrupted: None, kind: "mutated-valid" }
+        }
+        2 if !valid.is_empty() => {
+            // header-aimed: overwrite bytes within the first few bytes of a frame (length fields,
+            // tags, offsets live there) with boundary values, incl. lengths beyond max_msg_len
+            let mut s = valid.to_vec();
+            let fi = dec.below(St::Bytes, bounds.len() as u32) as usize;
+            let (fs, fe) = bounds[fi];
+            let span = (fe - fs).min(2 * M::ALIGN.max(4) + 4).max(1);
+            let at = fs + dec.below(St::Bytes, span as u32) as usize;
+            let width = [1usize, 2, 4][dec.below(St::Bytes, 3) as usize].min(fe - at).max(1);
+            let pat: u8 = [0xFF, 0x7F, 0x80, 0xFE, 0x01, 0x40][dec.below(St::Bytes, 6) as usize];
+            let mut first = s.len();
+            for i in 0..width {
+                if s[at + i] != pat {
+                    first = first.min(at + i);
+                }
+                s[at + i] = pat;
+            }
+            stats[P::data_header_aim as usize] += 1;
+            Hostile { stream: s, first_edit: first.min(valid.len()), corrupted: None, kind: "header-aimed" }
+        }
+        3 if !valid.is_empty() => {
+            // truncated valid stream, optionally followed by garbage
+            let t = dec.below(St::Bytes, valid.len() as u32 + 1) as usize;
+            let mut s = valid[..t].to_vec();
+            if dec.chance(St::Bytes, 1, 3) {
+                let extra = dec.below(St::Bytes, 12) as usize;
+                for _ in 0..extra {
+                    s.push(dec.below(St::Bytes, 256) as u8);
+                }
+            }
+            stats[P::data_truncate as usize] += 1;
+            Hostile { stream: s, first_edit: t, corrupted: None, kind: "truncated-valid" }
+        }
+        4 | 5 if !valid.is_empty() => {
+            // framed corruption: one frame complete but malformed in content, framing intact
+            let order: Vec<usize> = {
+                let start = dec.below(St::Bytes, bounds.len() as u32) as usize;
+                (0..bounds.len()).map(|i| (start + i) % bounds.len()).collect()
+            };
+            for fi in order {
+                let (fs, fe) = bounds[fi];
+                let frame = &valid[fs..fe];
+                // (i) documentation-based, differentially aimed: Bool := 2, string byte := 0xFF
+                let aim = if kind == 4 { confirmed_aim::<M>(&wire.vals[fi], frame, cap) } else { None };
+                let edit: Option<(usize, u8)> = match aim {
+                    Some(a) => Some(a),
+                    None => {
+                        // (ii) tree-based: a single-byte edit that the tree's own validate calls
+                        // a content error on the complete frame, on every prefix-extension of
+                        // it that can occur, and never accepts on a shorter prefix
+                        let mut found = None;
+                        let tries = 12;
+                        for _ in 0..tries {
+                            let at = dec.below(St::Bytes, frame.len() as u32) as usize;
+                            let nb = [0xFFu8, 2, 0x80, 0x7F, 3, 0xC0][dec.below(St::Bytes, 6) as usize];
+                            if frame[at] == nb {
+                                continue;
+                            }
+                            let mut c = frame.to_vec();
+                            c[at] = nb;
+                            if content_error_everywhere::<M>(&c, &valid[fe..]) {
+                                found = Some((at, nb));
+                                break;
+                            }
+                        }
+                        found
+                    }
+                };
+                if let Some((at, nb)) = edit {
+                    let mut s = valid.to_vec();
+                    s[fs + at] = nb;
+                    if aim.is_some() {
+                        stats[P::aim_confirmed as usize] += 1;
+                    }
+                    stats[P::data_framed_corruption as usize] += 1;
+                    return Hostile { stream: s, first_edit: fs + at, corrupted: Some((fs, fe)), kind: if aim.is_some() { "framed-corruption(doc)" } else { "framed-corruption(tree)" } };
+                }
+            }
+            stats[P::aim_unconfirmed as usize] += 1;
+            Hostile { stream: valid.to_vec(), first_edit: valid.len(), corrupted: None, kind: "valid(no-aim)" }
+        }
+        _ => {
+            let s: Vec<u8> = (0..dec.below(St::Bytes, 24)).map(|_| dec.below(St::Bytes, 256) as u8).collect();
+            stats[P::data_garbage as usize] += 1;
+            Hostile { stream: s, first_edit: 0, corrupted: None, kind: "garbage" }
+        }
+    }
+}
+
+/// True iff the tree's own validate reports a *content* error for the complete frame `c`, for
+/// `c` followed by any prefix of `rest` at alignment-unit granularity, and never accepts a
+/// proper prefix of `c`.  (Used only to construct a stream; the property under test is what the
+/// receiver then does.)
+fn content_error_everywhere<M: ZooMsg + ?Sized>(c: &[u8], rest: &[u8]) -> bool {
+    let is_content = |bytes: &[u8]| -> Option<bool> {
+        let b = AlignedBytes::from_slice(bytes, M::ALIGN.max(1));
+        match guarded(|| M::validate(&b)) {
+            Ok(Ok(())) => Some(false),
+            Ok(Err(e)) => Some(!matches!(e.kind, ErrorKind::InsufficientSize)),
+            Err(_) => None,
+        }
+    };
+    if is_content(c) != Some(true) {
+        return false;
+    }
+    let mut all = c.to_vec();
+    all.extend_from_slice(rest);
+    let mut k = c.len();
+    while k <= all.len() {
+        if is_content(&all[..k]) != Some(true) {
+            return false;
+        }
+        k += M::ALIGN.max(1);
+    }
+    if is_content(&all) != Some(true) {
+        return false;
+    }
+    for k in 0..c.len() {
+        let b = AlignedBytes::from_slice(&c[..k], M::ALIGN.max(1));
+        match guarded(|| M::validate(&b)) {
+            Ok(Ok(())) => return false,
+            Err(_) => return false,
+            _ => {}
+        }
+    }
+    true
+}
+
+fn check_hostile<M: ZooMsg + ?Sized>(w: &World, h: &Hostile, wire: &crate::c06::Wire, bounds: &[(usize, usize)]) -> Option<Violation> {
+    // O1: every recv ends in one of the four outcomes; no panic anywhere
+    for (i, r) in w.recvs.iter().enumerate() {
+        match &r.outcome {
+            RecvOutcome::Panic(d) => {
+                let site = d.rsplit_once(" @ ").map(|x| x.1.to_string()).unwrap_or_default();
+                return viol("O1-outcomes", "panic", &site, format!("recv #{} on a hostile stream ({}) panicked: {}", i, h.kind, d));
+            }
+            RecvOutcome::Msg { drop_panic: Some(d), .. } => {
+                let site = d.rsplit_once(" @ ").map(|x| x.1.to_string()).unwrap_or_default();
+                return viol("O1-outcomes", "panic", &site, format!("dropping the guard of recv #{} ({}) panicked: {}", i, h.kind, d));
+            }
+            RecvOutcome::InFlight => return viol("O1-outcomes", "hang", "recv", format!("recv #{} never returned", i)),
+            RecvOutcome::ReadErr(k) if k != "OutOfMemory" => return viol("O1-outcomes", "phantom-error", "recv", format!("recv #{} returned Read({}) although no read failed", i, k)),
+            // O2: a guard lies inside the bytes received and never over-consumes
+            RecvOutcome::Msg { size, view_len, occupied, .. } => {
+                if size > occupied {
+                    return viol("O2-guard-bounds", "over-consume", "recv", format!("recv #{} ({}): guard size() {} exceeds the {} bytes received and not yet consumed", i, h.kind, size, occupied));
+                }
+                if view_len > occupied {
+                    return viol("O2-guard-bounds", "view-beyond-received", "recv", format!("recv #{} ({}): the mapped value spans {} bytes, only {} were received", i, h.kind, view_len, occupied));
+                }
+                if *size == 0 {
+                    return viol("O2-guard-bounds", "zero-size", "recv", format!("recv #{}: guard of size 0", i));
+                }
+            }
+            _ => {}
+        }
+        let (s, e, c, _) = r.window_after;
+        if !(s <= e && e <= c) {
+            return viol("O2-guard-bounds", "window", "recv", format!("recv #{}: window {}..{} capacity {}", i, s, e, c));
+        }
+    }
+    if w.consumed > w.pipe.delivered_total {
+        return viol("O2-guard-bounds", "over-consume", "recv", format!("consumed {} > received {}", w.consumed, w.pipe.delivered_total));
+    }
+    // O4: frames wholly before the first edit are delivered intact and in order
+    let q = bounds.iter().take_while(|b| b.1 <= h.first_edit).count();
+    let msgs: Vec<(&Val, usize)> = w.recvs.iter().filter_map(|r| if let RecvOutcome::Msg { val, size, .. } = &r.outcome { Some((val, *size)) } else { None }).collect();
+    for i in 0..q {
+        match msgs.get(i) {
+            Some((val, size)) if *val == &wire.vals[i] && *size == bounds[i].1 - bounds[i].0 => {}
+            other => {
+                let o: String = format!("{:?}", other).chars().take(140).collect();
+                return viol("O4-clean-prefix", "mismatch", "recv", format!("valid message #{} precedes the first hostile byte (offset {}) but was not delivered intact: {} [{}]", i, h.first_edit, o, h.kind));
+            }
+        }
+    }
+    // O3: a frame that is complete but malformed in content => Parse, without asking for more
+    if let Some((fs, fe)) = h.corrupted {
+        let fi = bounds.iter().position(|b| b.0 == fs).unwrap_or(0);
+        // the outcome right after the fi clean messages
+        let mut seen_msgs = 0;
+        let mut verdict: Option<&RecvRec> = None;
+        for r in &w.recvs {
+            if seen_msgs == fi {
+                verdict = Some(r);
+                break;
+            }
+            if matches!(r.outcome, RecvOutcome::Msg { .. }) {
+                seen_msgs += 1;
+            }
+        }
+        match verdict {
+            Some(r) => match &r.outcome {
+                RecvOutcome::Parse(_) => {
+                    // it must not have read beyond the point where the whole frame was there,
+                    // except for bytes that arrived in the same read call
+                    if r.delivered_at_start >= fe && r.calls > 0 {
+                        return viol("O3-parse-not-read-more", "read-more", "recv", format!("the malformed frame {}..{} was already complete when recv started, yet recv issued {} read call(s) before reporting Parse", fs, fe, r.calls));
+                    }
+                }
+                other => {
+                    let o: String = format!("{:?}", other).chars().take(140).collect();
+                    return viol(
+                        "O3-parse-not-read-more",
+                        "no-parse-error",
+                        "recv",
+                        format!("frame {}..{} is complete but malformed in content ({}); instead of Parse the receiver returned {}", fs, fe, h.kind, o),
+                    );
+                }
+            },
+            None => return viol("O3-parse-not-read-more", "no-parse-error", "recv", format!("receiver stopped before reaching the malformed frame {}..{}", fs, fe)),
+        }
+    }
+    None
+}
+
+// ---------------------------------------------------------------------------------------------
+// systematic layers
+
+fn sys_base(prop: &str, world: WorldKind, backend: &str, ty: usize, seed: u64) -> Scenario {
+    Scenario {
+        version: 1,
+        property: prop.to_string(),
+        world,
+        backend: backend.to_string(),
+        type_index: ty,
+        type_name: TYPE_NAMES[ty].to_string(),
+        seed,
+        tape: None,
+        aux: Aux { systematic: true, ..Default::default() },
+        expect_signature: None,
+        expect_log_hash: None,
+        summary: None,
+    }
+}
+
+fn bases_per_type(tier: &str, quick: u64, thorough: u64) -> u64 {
+    if tier == "thorough" {
+        thorough
+    } else {
+        quick
+    }
+}
+
+/// C09: a fixed 3-message stream x EVERY pipe-call index x fault kind as a single fault.
+pub fn systematic_c09(backend: &str, seed: u64, tier: &str) -> Vec<Scenario> {
+    let mut out = Vec::new();
+    let nb = bases_per_type(tier, 2, 10);
+    for ty in 0..N_TYPES {
+        for world in [WorldKind::Blocking, WorldKind::Async] {
+            for b in 0..nb {
+                let s = mix(mix(seed, 0xC09), (ty as u64) << 8 | b);
+                let base = sys_base("C09", world, backend, ty, s);
+                let o = crate::batch::run_scenario(&base, false);
+                let (wc, rc, fc) = o.calls;
+                let kinds: [u32; 4] = [0, 1, 4, 8]; // Interrupted, WouldBlock, ConnectionReset, Other
+                for idx in 0..wc.min(80) {
+                    let mut whats: Vec<(u32, bool)> = vec![(0, false)];
+                    for k in kinds {
+                        whats.push((1 + k, false));
+                        if k != 0 {
+                            whats.push((1 + k, true));
+                        }
+                    }
+                    for (what, persistent) in whats {
+                        let mut sc = base.clone();
+                        sc.aux.forced = Some(Forced { side: 0, index: idx, what, persistent });
+                        out.push(sc);
+                    }
+                }
+                for idx in 0..rc.min(80) {
+                    let mut whats: Vec<(u32, bool)> = vec![(0, false)];
+                    for k in kinds {
+                        whats.push((1 + k, false));
+                        if k != 0 {
+                            whats.push((1 + k, true));
+                        }
+                    }
+                    for (what, persistent) in whats {
+                        let mut sc = base.clone();
+                        sc.aux.forced = Some(Forced { side: 1, index: idx, what, persistent });
+                        out.push(sc);
+                    }
+                }
+                if world == WorldKind::Async {
+                    for idx in 0..fc.min(16) {
+                        for what in [0u32, 1] {
+                            let mut sc = base.clone();
+                            sc.aux.forced = Some(Forced { side: 2, index: idx, what, persistent: false });
+                            out.push(sc);
+                        }
+                    }
+                }
+            }
+        }
+    }
+    out
+}
+
+/// C10: a valid 3-message stream truncated at EVERY position.
+pub fn systematic_c10(backend: &str, seed: u64, tier: &str) -> Vec<Scenario> {
+    let mut out = Vec::new();
+    let nb = bases_per_type(tier, 2, 12);
+    for ty in 0..N_TYPES {
+        for world in [WorldKind::Blocking, WorldKind::Async] {
+            for b in 0..nb {
+                let s = mix(mix(seed, 0xC10), (ty as u64) << 8 | b);
+                let mut base = sys_base("C10", world, backend, ty, s);
+                base.aux.truncate = Some(usize::MAX);
+                let o = crate::batch::run_scenario(&base, false);
+                for t in 0..o.stream_len {
+                    let mut sc = base.clone();
+                    sc.aux.truncate = Some(t);
+                    out.push(sc);
+                }
+            }
+        }
+    }
+    out
+}
+
+/// C07 / C08: every single split point of the write stream and of the read stream
+/// (two-chunk compositions) of a fixed 3-message stream; thorough: all pairs.
+pub fn systematic_splits(prop: &str, backend: &str, seed: u64, tier: &str) -> Vec<Scenario> {
+    let mut out = Vec::new();
+    let world = if prop == "C08" { WorldKind::Async } else { WorldKind::Blocking };
+    let nb = bases_per_type(tier, 2, 6);
+    for ty in 0..N_TYPES {
+        for b in 0..nb {
+            let s = mix(mix(seed, 0x5711), (ty as u64) << 8 | b);
+            let mut base = sys_base(prop, world, backend, ty, s);
+            base.aux.wsplit = Some(usize::MAX);
+            let o = crate::batch::run_scenario(&base, false);
+            let n = o.stream_len;
+            for r in 1..n {
+                let mut sc = base.clone();
+                sc.aux.rsplit = Some(r);
+                out.push(sc);
+            }
+            for wv in 1..n {
+                let mut sc = base.clone();
+                sc.aux.wsplit = Some(wv);
+                out.push(sc);
+            }
+            if tier == "thorough" && n <= 96 {
+                for r in 1..n {
+                    for wv in 1..n {
+                        let mut sc = base.clone();
+                        sc.aux.rsplit = Some(r);
+                        sc.aux.wsplit = Some(wv);
+                        out.push(sc);
+                    }
+                }
+            }
+        }
+    }
+    out
+}
